@@ -391,3 +391,50 @@ def global_configs():
 
     cfgs.append(("log level DEBUG", log_enter("DEBUG"), log_leave))
     return cfgs
+
+
+# ---- running a compact pass under every process-wide configuration, quietly -----------------------
+
+import contextlib as _contextlib
+
+
+@_contextlib.contextmanager
+def quiet_stderr():
+    """DEBUG logging of the package writes to stderr: silence the STREAM (fd 2), not the level"""
+    import os
+    import sys
+    try:
+        sys.stderr.flush()
+    except Exception:
+        pass
+    saved = os.dup(2)
+    devnull = os.open(os.devnull, os.O_WRONLY)
+    try:
+        os.dup2(devnull, 2)
+        yield
+    finally:
+        try:
+            sys.stderr.flush()
+        except Exception:
+            pass
+        os.dup2(saved, 2)
+        os.close(saved)
+        os.close(devnull)
+
+
+def under_every_config(body):
+    """body(config_name) is run once under every configuration of `global_configs()` (entered, left and
+    restored, stderr silenced); configurations whose `enter` raises are skipped. Returns names run."""
+    ran = []
+    for (cname, enter, leave) in global_configs():
+        try:
+            tok = enter()
+        except Exception:
+            continue
+        try:
+            with quiet_stderr():
+                body(cname)
+            ran.append(cname)
+        finally:
+            leave(tok)
+    return ran
